@@ -521,7 +521,8 @@ def durable(fs):
     return {p: bytes(b) for p, b in fs.files.items()}
 
 
-def run_workload(plan, srcs, fault=None, interrupt=None, twin=None):
+def run_workload(plan, srcs, fault=None, interrupt=None, twin=None,
+                 fs_factory=None):
     """
     One execution.  fault-free when fault is None and interrupt is None;
     otherwise exactly one fault / interrupt is armed and the post-fault
@@ -534,7 +535,7 @@ def run_workload(plan, srcs, fault=None, interrupt=None, twin=None):
     if fault is not None:
         f = {"at": fault[0], "kind": fault[1],
              "errno": plan["errno"].get(fault[1])}
-    fs = SimFS(plan["buffer_size"], plan["chunk_size"], f)
+    fs = (fs_factory or SimFS)(plan["buffer_size"], plan["chunk_size"], f)
     R = Runner(pytrs, plan, srcs, fs)
     # finalisation is explicit, so that faults can land in it too
     ops = plan["ops"] + [{"op": "tw_close", "w": 0, "final": True},
